@@ -288,6 +288,8 @@ def run(ck):
         "only the key set of topic_errors and the broker table are in the model; the monitors check on the implementation that topics_to_brokers, "
         "topic_partitions, topic_errors and the coordinator cache are all empty after close() (partition_meta is never pruned by the code and is not part of the check)",
         "F-C20-2 (known): a load_metadata_for_topics() pending at close() resolves with None; the close Deferred does not wait for an ephemeral bootstrap connection",
+        "_load_topic_partitions is operation kind 2 of the model (attempts counted in the kind, retry back-off = timer kind TWait, cancelled by close(): "
+        "F-C20-3's repair is inside the model); a metadata response makes it retry iff it names a topic in error / without partitions (abstract topic ids >= 4)",
         "extraction: ExtrOcamlBasic only; OCaml runner cross-checked by vm_compute on a sample",
     ]
     ck.cov["trusted_base"] += ["correspondence harness harness/props/clientreq_lib.py + harness/simnet.py + harness/vlib.py",
